@@ -34,4 +34,4 @@ pub(crate) fn sinclair_event_to_zx_key(key: SinclairKey, num: SinclairJoyNum) ->
 
 #[cfg(kani)]
 #[path = "/verif/hooks/core/sinclair.rs"]
-mod verif_hooks;
+pub(crate) mod verif_hooks;
